@@ -272,6 +272,14 @@ func (g *tgen) nodes(ctx string, depth, budget int, item map[string]interface{})
 				name := fmt.Sprintf("v%d", r.Intn(6))
 				if g.on("missing", 1, 6) {
 					name = fmt.Sprintf("nov%d", r.Intn(3))
+					if r.Chance(1, 3) {
+						// unknown, but spelt like a known variable in another case: names are case-sensitive
+						k := fmt.Sprintf("v%d", r.Intn(6))
+						if _, ok := g.d.vars[k]; !ok {
+							g.d.vars[k] = g.value()
+						}
+						name = strings.ToUpper(k)
+					}
 				} else if _, ok := g.d.vars[name]; !ok {
 					g.d.vars[name] = g.value()
 				}
